@@ -502,6 +502,17 @@ public:
       this->thePvec->setTolerances(newTolerances);
       this->theRPvec->setTolerances(newTolerances);
       this->theCPvec->setTolerances(newTolerances);
+
+      // the loaded components hold their own pointer to the tolerances (a cloned pricer, ratio tester or starter of an
+      // assigned solver still points to the tolerances of the source): keep them in line with the solver
+      if(thepricer != nullptr)
+         thepricer->setTolerances(newTolerances);
+
+      if(theratiotester != nullptr)
+         theratiotester->setTolerances(newTolerances);
+
+      if(thestarter != nullptr)
+         thestarter->setTolerances(newTolerances);
    }
 
    /// returns current tolerances
